@@ -356,6 +356,16 @@ func identOf(e ast.Expr) *ast.Ident {
 	return nil
 }
 
+var modelledAtomic = func() map[string]bool {
+	m := map[string]bool{}
+	for _, op := range []string{"Add", "Load", "Store", "Swap", "CompareAndSwap"} {
+		for _, t := range []string{"Int32", "Int64", "Uint32", "Uint64"} {
+			m[op+t] = true
+		}
+	}
+	return m
+}()
+
 // stdFunc reports whether call.Fun denotes pkgPath.name.
 func (rw *rewriter) stdFunc(fun ast.Expr) (pkg, name string) {
 	sel, ok := fun.(*ast.SelectorExpr)
@@ -501,6 +511,21 @@ func (rw *rewriter) callExpr(e *ast.CallExpr) ast.Expr {
 		}
 	}
 	if pkg, name := rw.stdFunc(e.Fun); pkg != "" {
+		if pkg == "sync/atomic" && (rw.opts.Sync || rw.opts.Access) && modelledAtomic[name] {
+			// the pointer argument is an address, not an access
+			args := []ast.Expr{}
+			for i, a := range e.Args {
+				if i == 0 {
+					if u, ok := unparen(a).(*ast.UnaryExpr); ok && u.Op == token.AND {
+						args = append(args, &ast.UnaryExpr{Op: token.AND, X: rw.expr(u.X, ctxPlace)})
+						continue
+					}
+				}
+				args = append(args, rw.expr(a, ctxR))
+			}
+			rw.count("atomic-" + name)
+			return rw.call("Atomic"+name, append(args, rw.site(e))...)
+		}
 		if rw.opts.Time {
 			switch pkg + "." + name {
 			case "time.Now":
